@@ -1,2 +1,107 @@
-(* C01 - placeholder until the pipeline theorems are proved; see Proofs/PipelineProofs.v *)
-Require Import WD.Base.Prelude WD.Model.Pipeline.
+(* C01 - Replaying the native (inotify) event stream reproduces the real directory tree.
+   Only statements; every proof is `exact <lemma>`.
+   replay / tree_of / in_scope (Proofs/ReplayProofs.v) are harness/pipeprops.py's replay / scope_listing / in_scope
+   as Gallina functions; trees are compared as finite maps (Python dicts).  The invariant the proofs rest on is the
+   cover invariant of C02 (RSync, Proofs/CoverProofs.v). *)
+Require Import WD.Base.Prelude WD.Base.BStr WD.Model.SubEvents WD.Model.Emitter WD.Model.Fs WD.Model.Reader
+               WD.Model.Pipeline WD.Proofs.CoverProofs WD.Proofs.ReplayProofs.
+
+Definition repaired (C : cfg) : Prop :=
+  c_faults C = [] /\ c_fix_ignored C = true /\ c_fix_movein C = true /\ c_fix_simulate C = true /\ c_mask C = WATCHDOG_ALL.
+
+Definition quiescent (s : pstate) : Prop :=
+  k_queue (p_k s) = [] /\ DelayQueue.q (fst (p_buf s)) = [] /\ buf_ready (p_buf s).
+
+(* FULL statement, sequential layer (DESIGN.md C01 layer 1): every operation is followed by a full drain
+   (ARead of the whole kernel queue, then AEmit / ATick until the delay queue is empty). *)
+Definition C01_sequential_full : Prop :=
+  forall P, repaired (pc_reader P) -> pc_filter P = None ->
+  forall w0 s0, wf_fs w0 -> fisdir (c_root (pc_reader P)) (w_fs w0) = true -> pinit P w0 = Some s0 ->
+  forall ops, Forall (fun o => op_np o /\ op_keeps_root (pc_reader P) o) ops ->
+  forall fuel s, seq_run P fuel s0 ops = Done s -> quiescent s ->
+  tree_eq (replay (c_recursive (pc_reader P)) (c_root (pc_reader P))
+                  (tree_of (c_recursive (pc_reader P)) (c_root (pc_reader P)) w0) (p_out s))
+          (tree_of (c_recursive (pc_reader P)) (c_root (pc_reader P)) (p_world s)).
+
+(* FULL statement (DESIGN.md C01): any history of the gated driver's actions that respects the directory pacing
+   condition; [paced] = no operation touches the contents or re-uses a name of a directory that was created, renamed,
+   moved or removed since the pipeline was last quiescent (a directory may be renamed again right after it arrived). *)
+Definition dir_op_paths (t : fs) (o : op) : list bytes :=
+  match o with
+  | Mkdir p | Rmdir p => [p]
+  | Rename p q => if fisdir p t then [p; q] else []
+  | _ => []
+  end.
+Definition op_paths (o : op) : list bytes :=
+  match o with Touch p | Write p | Chmod p | Unlink p | Mkdir p | Rmdir p => [p] | Rename p q => [p; q] end.
+Definition touches_hot (hot : list bytes) (o : op) : bool :=
+  existsb (fun h => existsb (fun p => under h p || (beqb p h && match o with Rename _ _ => false | _ => true end))
+                            (op_paths o)) hot.
+Fixpoint paced (P : pcfg) (s : pstate) (hot : list bytes) (h : list action) : Prop :=
+  match h with
+  | [] => True
+  | a :: h' =>
+    match pstep P s a with
+    | Crash _ => True
+    | Done (s', _) =>
+      let hot0 := match a with AOp _ => hot | _ => if match DelayQueue.q (fst (p_buf s')), k_queue (p_k s') with [], [] => true | _, _ => false end then [] else hot end in
+      match a with
+      | AOp o => touches_hot hot o = false /\ paced P s' (dir_op_paths (w_fs (p_world s)) o ++ hot) h'
+      | _ => paced P s' hot0 h'
+      end
+    end
+  end.
+Definition C01_replay_full : Prop :=
+  forall P, repaired (pc_reader P) -> pc_filter P = None ->
+  forall w0 s0, wf_fs w0 -> fisdir (c_root (pc_reader P)) (w_fs w0) = true -> pinit P w0 = Some s0 ->
+  forall h, paced P s0 [] h ->
+  (forall o, In (AOp o) h -> op_np o /\ op_keeps_root (pc_reader P) o) ->
+  forall s obs, prun P s0 h [] = Done (s, obs) -> quiescent s ->
+  tree_eq (replay (c_recursive (pc_reader P)) (c_root (pc_reader P))
+                  (tree_of (c_recursive (pc_reader P)) (c_root (pc_reader P)) w0) (p_out s))
+          (tree_of (c_recursive (pc_reader P)) (c_root (pc_reader P)) (p_world s)).
+
+(* PROVED PART (sequential layer, one operation kind, reader + emitter composition instead of the drain through the
+   delay queue): from a synchronised state whose replayed stream equals the tree, after Touch of a fresh name in ANY
+   directory in scope and one read of the whole kernel queue, the reader is synchronised again and the replay of
+   (old stream ++ emit_single of every raw event of the read) IS the new tree.  Extra hypotheses spelled out: the
+   operation is a Touch; events are translated one by one (no pairing is involved for a Touch); the delay queue is
+   bypassed. *)
+Theorem C01_touch_partial : forall C w k r de name w' full content t0 out,
+  RSync C w k r -> c_mask C = WATCHDOG_ALL ->
+  In de (w_fs w) -> f_dir de = true -> scope C (f_path de) -> valid_name name = true ->
+  let p := f_path de ++ sep :: name in
+  apply_op w (Touch p) = Some w' ->
+  replay (c_recursive C) (c_root C) t0 out = tree_of (c_recursive C) (c_root C) w ->
+  let k1 := kernel_op k (w_fs w) (Touch p) in
+  exists evs, read_batch C (w_fs w') (r, drainq k1, []) (k_queue k1) = Done (r, drainq k1, evs) /\
+    RSync C w' (drainq k1) r /\
+    replay (c_recursive C) (c_root C) t0 (out ++ emit_singles C full content evs) = tree_of (c_recursive C) (c_root C) w'.
+Proof. exact C01_touch_reader_emitter. Qed.
+Print Assumptions C01_touch_partial.
+
+(* the reader's watch state after every proved operation kind is again synchronised (C02_cover_step): the part of the
+   C01 invariant `Sync` that does not mention the stream *)
+Theorem C01_sync_preserved : forall C, c_faults C = [] -> forall ops, mask_ok C -> forall w k r,
+  RSync C w k r -> ops_covered C w ops ->
+  exists w' k' r', rrun C w k r ops = Some (w', k', r') /\ RSync C w' k' r'.
+Proof. exact cover_sequential. Qed.
+Print Assumptions C01_sync_preserved.
+
+(* ---- non-vacuity: the replay function on a concrete stream (created, moved with a sub-tree, deleted) *)
+Example C01_replay_example :
+  let R := pR in
+  replay true R []
+    [ mk DirCreated (sub R 97) []; mk FileCreated (sub (sub R 97) 102) []; mk DirModified R [];
+      mk DirMoved (sub R 97) (sub R 98);
+      {| ev_cls := FileMoved; ev_src := sub (sub R 97) 102; ev_dest := sub (sub R 98) 102; ev_synth := true |};
+      mk FileCreated (sub pO 120) [];
+      mk FileDeleted (sub (sub R 98) 102) [] ]
+  = [(sub R 98, true)].
+Proof. vm_compute. reflexivity. Qed.
+
+Example C01_touch_nonvacuous :
+  exists r0 k0, construct (cfgx true true) kinit (w_fs w0) = Some (r0, k0) /\
+    apply_op w0 (Touch (pR ++ sep :: [102%N])) <> None /\ scope (cfgx true true) pR /\ valid_name [102%N] = true /\
+    replay true pR [] [] = tree_of true pR w0.
+Proof. eexists _, _. split; [vm_compute; reflexivity|]. repeat split; try (vm_compute; discriminate); try reflexivity. now left. Qed.
